@@ -88,10 +88,27 @@ def method(ip, recv, name, args, kwargs):
 
 class SplitV:
     """result of s.split(sep) kept abstract; consumers: " ".join(...), len(...), iteration"""
-    __slots__ = ("s", "sep")
+    __slots__ = ("s", "sep", "_list")
 
     def __init__(self, s, sep):
         self.s, self.sep = s, sep
+        self._list = None
+
+    def as_list(self, ip):
+        """a fresh list of strings of unknown length (at least one piece when a separator is given): A-str"""
+        if self._list is None:
+            from .smt import KIND_LIST
+            c = ip.c
+            r = c.alloc(KIND_LIST)
+            n = c.fresh("nsplit", I)
+            c.assume(n >= (0 if self.sep is None else 1))
+            j = z3.Int("sp_j")
+            e = c.fresh("split_items", z3.ArraySort(I, Val))
+            c.assume(z3.ForAll([j], Val.is_strv(e[j]), patterns=[e[j]]))
+            c.write_array("llen", z3.Store(c.heap.get("llen"), r, n))
+            c.write_array("lelem", z3.Store(c.heap.get("lelem"), r, e))
+            self._list = r
+        return self._list
 
 
 class JoinedV:
